@@ -358,6 +358,12 @@ class SymComp:
         return f"<SymComp [{self.lo}, {self.hi})>"
 
 
+class OpaqueList(list):
+    """python list whose contents are unknown: what a list that is appended to inside a CUT loop becomes at the loop
+    head when the loop's LoopSpec asks for it (`opaque_lists=True`).  Only `.append` and consumers that return an
+    opaque result are meaningful; len() / iteration / indexing are Unsupported (pyvc/lib/ext_loops.py)."""
+
+
 class Anything:
     """Result of a stubbed callee whose value is irrelevant to the obligations
     of the task (losses returned by a stubbed update routine, logged stats):
@@ -521,6 +527,28 @@ def _num_pair(a, b):
     return za, zb
 
 
+def _entailed_positive(zb):
+    """does the current path condition entail divisor > 0?  (then Python's
+    floor division / modulo coincide with z3's Euclidean div / mod)"""
+    from . import tensor as T
+
+    st = T.CUR["st"]
+    if st is None:
+        return False
+    cache = st.ghost.setdefault("positive_divisors", {})
+    k = zb.get_id()
+    if k in cache:
+        return cache[k][0]
+    s = z3.Solver()
+    s.set("timeout", 1000)
+    for h in st.pc:
+        s.add(h)
+    s.add(zb <= 0)
+    r = s.check() == z3.unsat
+    cache[k] = (r, zb)
+    return r
+
+
 def py_floordiv(a: z3.ArithRef, b: z3.ArithRef):
     """Python floor division / modulo on integers for any sign of divisor:
     z3 div/mod are Euclidean (remainder >= 0)."""
@@ -529,6 +557,24 @@ def py_floordiv(a: z3.ArithRef, b: z3.ArithRef):
     # python: result of % has the sign of b
     adj = z3.And(b < 0, r != 0)
     return z3.If(adj, q + 1, q), z3.If(adj, r + b, r)
+
+
+def _is_val(x):
+    return isinstance(x, Sym) and x.z.sort() == VAL
+
+
+def _opaque_arith(op, a, b):
+    """`+` / `*` between two opaque payloads (sort Val, e.g. two value tables that
+    are never inspected at loop level, DESIGN 4.2): an uninterpreted function of
+    the two payloads; the commutativity instance for this pair is assumed."""
+    from . import tensor as T
+
+    f = uf({"+": "val_add", "*": "val_mul"}[op], VAL, VAL, VAL)
+    z = f(a.z, b.z)
+    st = T.CUR["st"]
+    if st is not None and not z3.eq(a.z, b.z):
+        st.assume(z == f(b.z, a.z))
+    return Sym(z)
 
 
 def binop(op, a, b):
@@ -543,6 +589,8 @@ def binop(op, a, b):
         b, (Sym, z3.ExprRef)
     ):
         return _concrete_binop(op, a, b)
+    if op in ("+", "*") and _is_val(a) and _is_val(b):
+        return _opaque_arith(op, a, b)
     gd = gdeps_of(a, b)
     if op in ("+", "-", "*"):
         za, zb = _num_pair(a, b)
@@ -555,7 +603,7 @@ def binop(op, a, b):
         za, zb = as_num(a), as_num(b)
         if za.sort() == INT and zb.sort() == INT:
             cb = concrete_of(z3.simplify(zb))
-            if cb is not None and cb > 0:
+            if (cb is not None and cb > 0) or _entailed_positive(zb):
                 return mk(za / zb if op == "//" else za % zb, gd)
             q, r = py_floordiv(za, zb)
             return mk(q if op == "//" else r, gd)
